@@ -101,10 +101,13 @@ Qed.
 (* ------------------------------------------------------------------------------------------ *)
 (* 2. File.initialize_row for any requested state, outside the propagating case                *)
 (* ------------------------------------------------------------------------------------------ *)
+(* a former output keeps BUILT / OUTDATED when it is re-created as an input or planned output; a
+   former volatile output that is merely supplied as an input stays VOLATILE (D32, bae2038) *)
 Definition nst (f : fstate) (old : option fstate) : fstate :=
   match f, old with
   | FUndeclared, Some FBuilt | FPlanned, Some FBuilt => FBuilt
   | FUndeclared, Some FOutdated | FPlanned, Some FOutdated => FOutdated
+  | FUndeclared, Some FVolatile => FVolatile
   | _, _ => f
   end.
 Definition old_state (v : option (fstate * option N)) : option fstate :=
@@ -127,19 +130,14 @@ Lemma file_init_gen f l s s1 :
               else file_view l' s).
 Proof.
   unfold file_initialize_row. intros H NB.
-  assert (ST : match f with
-               | FUndeclared | FPlanned =>
-                 match find_file l s with
-                 | Some r => match fstt r with FBuilt => FBuilt | FOutdated => FOutdated | _ => f end
-                 | None => f end
-               | _ => f end = nst f (old_state (file_view l s))).
-  { unfold nst, old_state, file_view. destruct (find_file l s) as [r|]; destruct f; try reflexivity;
-      destruct (fstt r); reflexivity. }
   assert (ST' : match f, find_file l s with
-                | FUndeclared, Some r | FPlanned, Some r =>
+                | FUndeclared, Some r =>
+                  match fstt r with FBuilt => FBuilt | FOutdated => FOutdated | FVolatile => FVolatile | _ => f end
+                | FPlanned, Some r =>
                   match fstt r with FBuilt => FBuilt | FOutdated => FOutdated | _ => f end
                 | _, _ => f end = nst f (old_state (file_view l s))).
-  { rewrite <- ST. destruct f; destruct (find_file l s); reflexivity. }
+  { unfold nst, old_state, file_view. destruct (find_file l s) as [r|]; destruct f; try reflexivity;
+      destruct (fstt r); reflexivity. }
   rewrite ST' in H. set (st' := nst f (old_state (file_view l s))) in *.
   destruct (find_file l s) as [r|] eqn:F.
   - unfold set_fstate, set_fstate_hash in H. rewrite F in H.
@@ -844,10 +842,11 @@ Qed.
 
 (* re-declaring static a node that an input supply has just (re)created keeps the same hash rule *)
 Lemma hh_after_undeclared o (h : option N) :
+  (o = FVolatile -> h = None) ->
   (if clears_hash (nst FUndeclared (Some o)) FUnconfirmed then None
    else (if clears_hash o (nst FUndeclared (Some o)) then None else h)) =
   (if clears_hash o FUnconfirmed then None else h).
-Proof. destruct o; cbn; reflexivity. Qed.
+Proof. intros Hv. destruct o; cbn; try reflexivity. symmetry. apply Hv. reflexivity. Qed.
 
 (* ------------------------------------------------------------------------------------------ *)
 (* 8. declarations_commute, pair (static, define) in the fresh fragment                        *)
@@ -890,20 +889,22 @@ Proof. destruct v as [[]|]; reflexivity. Qed.
 Lemma role_of_nst_volatile v : role_of (nst FVolatile v) = Some 63.
 Proof. destruct v as [[]|]; reflexivity. Qed.
 
+(* a VOLATILE row carries no hash (part of inv_fhash_b; the trigger file_clear_hash) *)
+Definition vol_nohash (s : st) : Prop := forall l h, file_view l s = Some (FVolatile, h) -> h = None.
 (* absent nodes have no edges (part of inv_deps_b) *)
 Definition deps_closed (s : st) : Prop := forall a b, existsn b s = false -> find_dep a b s = None.
 
 Theorem static_define_commute (s sa sb s12 s21 : st) (c1 : key) (ps : list str)
         (c2 : key) (L : str) (inp env out vol : list str) (nd : need) :
   not_file c1 -> not_file c2 -> NoDup ps -> attached c1 s = true -> attached c2 s = true ->
-  fresh_define L inp out vol s -> deps_closed s ->
+  fresh_define L inp out vol s -> deps_closed s -> vol_nohash s ->
   step_op (OpDeclareStatic c1 ps) s = Ok sa ->
   step_op (OpDefineStep c2 L inp env out vol nd) sa = Ok s12 ->
   step_op (OpDefineStep c2 L inp env out vol nd) s = Ok sb ->
   step_op (OpDeclareStatic c1 ps) sb = Ok s21 ->
   st_equiv s12 s21.
 Proof.
-  cbn [step_op]. intros Hf1 Hf2 NDp Ha1 Ha2 FD DC R1 R12 R2 R21.
+  cbn [step_op]. intros Hf1 Hf2 NDp Ha1 Ha2 FD DC VN R1 R12 R2 R21.
   pose proof FD as FD0.
   destruct FD as [fd_label0 fd_nfc0 fd_nd_inp0 fd_nd_out0 fd_nd_vol0 fd_io0 fd_iv0 fd_ov0 fd_nb_inp0 fd_nb_out0].
   apply static_request_spec in R1 as [S1 _]; try assumption.
@@ -1005,8 +1006,8 @@ Proof.
     + destruct (TnotOV l MT) as [-> ->]. rewrite andb_false_r. f_equal. f_equal.
       rewrite !hh_view, df_file0. destruct (PnotOV l (MTps l MT)) as [-> ->]. rewrite mem_filter.
       destruct (mem_str l inp && recreated s l); [|reflexivity].
-      destruct (file_view l s) as [[o h]|]; [|reflexivity]. cbn [old_state nhash].
-      symmetry. apply hh_after_undeclared.
+      destruct (file_view l s) as [[o h]|] eqn:FVl; [|reflexivity]. cbn [old_state nhash].
+      symmetry. apply hh_after_undeclared. intros ->. eapply VN. exact FVl.
     + reflexivity.
   - (* steps *)
     intros l. rewrite df_step1, (step_view_of_steps _ _ sd_steps1), df_step0, (step_view_of_steps _ _ sd_steps0).
@@ -1056,6 +1057,19 @@ Proof.
   exfalso. apply find_some in F as [Hin Hd]. apply andb_true_iff in Hd as [_ Hb]. apply key_eqb_eq in Hb.
   specialize (H d Hin). apply andb_true_iff in H as [_ H]. rewrite Hb in H.
   unfold existsn in Hex. congruence.
+Qed.
+Lemma inv_fhash_vol_nohash s : inv_fhash_b s = true -> vol_nohash s.
+Proof.
+  unfold inv_fhash_b, vol_nohash, file_view. intros H l h F. rewrite forallb_forall in H.
+  destruct (find_file l s) as [r|] eqn:FF; [|discriminate]. inversion F as [[Hs Hh]].
+  apply find_some in FF as [Hin _]. specialize (H r Hin). rewrite Hs in H.
+  destruct (fh r); [discriminate | reflexivity].
+Qed.
+Lemma inv_b_vol_nohash s : inv_b s = true -> vol_nohash s.
+Proof.
+  unfold inv_b. intros H.
+  repeat (match type of H with (andb _ _ = true) => apply andb_true_iff in H as [H ?] end).
+  apply inv_fhash_vol_nohash. assumption.
 Qed.
 Lemma inv_b_deps_closed s : inv_b s = true -> deps_closed s.
 Proof.
